@@ -13,10 +13,6 @@ theorem read_noPanicAt (s : Rd) (h : bitsBE s.bytes s.p 5 ≤ 14) : NoPanicAt re
   apply wp_lift_of (by rw [subU_ok h]; rfl); intro nuc _
   wp_run
 
-end Rs1090.Model.Bds06
-
-namespace Rs1090.Model.Bds06
-open Rs1090 Rs1090.Model
 
 theorem groundspeed_good (mov : Nat) :
     ((groundspeed mov).getD Json.null).wf = true ∧
@@ -56,5 +52,28 @@ theorem read_rangeGood (s : Rd) (h : bitsBE s.bytes s.p 5 ≤ 14) : wp read (fun
     · rfl
   · exact holds_below _ _ (by assumption)
   · exact holds_below _ _ (by assumption)
+
+/-- partial-correctness form, for every state: whenever the reader returns at all (so `14 - tc` did not
+    overflow), its result serialises well and is in range -/
+theorem read_good (s : Rd) : post read (fun r _ => SerGood outerKeys r ∧ RangeGood r) s := by
+  unfold read
+  post_run
+  apply post_lift; intro nuc _
+  post_run
+  refine ⟨?_, ?_⟩
+  · apply serGood_of
+    · keys_decide
+    · keys_decide
+    · fields_cases
+      · exact (groundspeed_good _).1
+      · split <;> simp [jrat, Json.wf]
+  · apply rangeGood_of
+    range_cases
+    · exact (groundspeed_good _).2
+    · split
+      · simp [jrat, Constraint.holds, ratIn]; omega
+      · rfl
+    · exact holds_below _ _ (by assumption)
+    · exact holds_below _ _ (by assumption)
 
 end Rs1090.Model.Bds06
